@@ -55,11 +55,19 @@ package server
 //@   modifies s.locations, s.cache, s.compress, s.compressMinLength, s.compressContentTypeFilter
 //@   nopanic
 
+// ---- cache keys (C06) -------------------------------------------------------------------------
+//@ spec func uriOf(req *http.Request) string := (len(req.RequestURI) == 0) ? urlString(req.URL) : req.RequestURI
+// the key is METHOD SP HOST SP URI in a buffer of its own (verified in SMT string theory)
 //@ func getKey(req *http.Request) (key []byte)
 //@   requires [req] req != nil && req.URL != nil
 //@   nopanic
 //@   strings
-//@   ensures [fresh] fresh(key)
+//@   ensures [fresh]  fresh(key)
+//@   ensures [layout] b2s(contents(key)) == req.Method + " " + req.Host + " " + uriOf(req)
+// keys are injective on (method, host, uri) as long as method and host contain no space
+//@ lemma [key-injective] strings: forall m1 string, h1 string, u1 string, m2 string, h2 string, u2 string ::
+//@     !strContains(m1, " ") && !strContains(h1, " ") && !strContains(m2, " ") && !strContains(h2, " ")
+//@     && m1 + " " + h1 + " " + u1 == m2 + " " + h2 + " " + u2 ==> m1 == m2 && h1 == h2 && u1 == u2
 
 //@ func NewCache$1(c *elton.Context) (err error)
 //@   requires [ctx]     c != nil
